@@ -232,7 +232,13 @@ class FloatLiteral(Literal[float]):
             return "1e999"
         if self.value == -math.inf:
             return "-1e999"
-        return super().__str__()
+        text = super().__str__()
+        if "e" in text and "." not in text:
+            # `repr()` gives "1e+25". Without a fraction that would be read back
+            # as an integer literal.
+            mantissa, exponent = text.split("e")
+            return f"{mantissa}.0e{exponent}"
+        return text
 
 
 class RegexLiteral(Literal[Pattern[str]]):
